@@ -85,6 +85,52 @@ def bit_test(t, truth):
     return None
 
 
+def bulk_slot_writes(rep, R1, wr, ww):
+    """A run of slots written in one go (`for entry in &set[a..b] { write_string(entry) }`) under a test that fixes the
+    group's flag word to a constant K: the reader will pull one string per set bit of K, so the run has to hold
+    exactly popcount(K) slots."""
+    from flow import dom_guards, cond_truth
+    from binser import const_fold
+    loops = for_loops(wr)
+    for lp in loops:
+        blocks = lp["blocks"]
+        if not any((callee_names(t)[1] or "").endswith("::write_string") for bb, t in wr.calls() if bb in blocks):
+            continue
+        src = lp.get("src")
+        rng = None
+        for x in walk(src) if src else ():
+            if x[0] == "call" and "ops::Index" in x[1] and len(x[2]) == 2 and strip_refs(x[2][1])[0] == "agg" and (strip_refs(x[2][1])[2] or "").endswith("ops::Range"):
+                rng = strip_refs(x[2][1])
+        if rng is None or len(rng[4]) != 2:
+            continue
+        a, b = affine(rng[4][0], None), affine(rng[4][1], None)
+        if a is None or b is None:
+            rep.inconc(R1, "writer: a run of slots %s is written in one loop; its length is not affine" % fmt(rng)[:60])
+            continue
+        diff = {k: b[0].get(k, 0) - a[0].get(k, 0) for k in set(a[0]) | set(b[0])}
+        if any(diff.values()):
+            rep.inconc(R1, "writer: a run of slots %s is written in one loop; its length is not a constant" % fmt(rng)[:60])
+            continue
+        n = b[1] - a[1]
+        K = None
+        for (ab, sb_, c) in dom_guards(wr, lp["head"]):
+            ct = cond_truth(c)
+            if ct and ct[0][0] == "bin" and ct[0][1] in ("Eq", "Ne") and ((ct[0][1] == "Eq") == ct[1]):
+                for side in (ct[0][2], ct[0][3]):
+                    v = const_fold(side)
+                    if v is not None:
+                        K = v
+        if K is None:
+            rep.inconc(R1, "writer: %d slots are written in one loop under a condition that does not fix the group's flag word" % n)
+            continue
+        bits = bin(K & 0xFFFFFFFF).count("1")
+        if bits == n:
+            rep.ok(R1, {"bulk_run": "%d slots under flag word %#x" % (n, K)})
+        else:
+            rep.violation(R1, wr.name, "bulk-run-length", "under flag word %#x (%d set bits) the writer emits a run of %d slots (%s): the reader pulls one string per set bit, so every later cell of the file is read %d cell(s) off" % (
+                K, bits, n, fmt(rng)[:60], abs(bits - n)), ww)
+
+
 def slot_access_rule(facts, rep, R1, wr, ww):
     """Every element access `view.get(i)` / `view[i]` of the writer into a set: the set index it denotes
     (sub-slice offsets added) must be 32*group + bit + 1, and a constant cap on the viewed range must not cut off
@@ -301,6 +347,7 @@ def run(facts, rep, ctx):
         return None
     # slot accesses of the writer on the fully expanded terms (independent of how locals are named)
     n_slots = slot_access_rule(facts, rep, R1, wr, ww)
+    bulk_slot_writes(rep, R1, wr, ww)
     if len(good_forms) == 2 and not bad_forms:
         okb = all(loop_bound_of(wnv, f[1], wloops) == 8 and loop_bound_of(wnv, f[2], wloops) == 32 for f in good_forms)
         if okb:
